@@ -94,7 +94,12 @@ func (m Modules) Len() int {
 }
 
 func (m Modules) Less(i, j int) bool {
-	return m[i].Name < m[j].Name
+	if m[i].Name != m[j].Name {
+		return m[i].Name < m[j].Name
+	}
+	// Two files of the same name in different directories: keep the index
+	// in a fixed order all the same.
+	return m[i].File < m[j].File
 }
 
 func (m Modules) Swap(i, j int) {
